@@ -350,6 +350,12 @@ fn worker(a: Args) -> ! {
         alloc::set_fatal_path(&p);
     }
 
+    if id == "C18" {
+        if let Some(code) = props::isolation::child_main(a.seed) {
+            std::process::exit(code);
+        }
+    }
+
     if let Some((shard, stream, index)) = a.dump {
         let case = props::regen(&cx, shard, stream, index).unwrap_or(Value::Null);
         println!("{}", serde_json::to_string(&case).unwrap());
